@@ -33,6 +33,7 @@ func zxSeq(e expr.Expr, until time.Time, vals ...float64) encoding.Sequence {
 }
 
 var errSource = errors.New("source failed")
+var errConsumer = errors.New("consumer failed")
 
 // C13.G — real core operators under a symbolic clock and a symbolic deadline: if Iterate returns
 // a nil error then every row the source produced has been delivered downstream, and if the source
@@ -81,12 +82,22 @@ func zxC13Operators() {
 		flat = Sort(Flatten(Group(src, GroupOpts{})), NewOrderBy("_time", false))
 	}
 	got := 0
+	// the consumer itself may fail at a chosen row (e.g. a response-size limit downstream)
+	consumerFailsAt := vrtShape("consumerFailsAt", K+2) - 1 // -1: never
+	consumerFailed := false
 	_, err := flat.Iterate(ctx, FieldsIgnored, func(row *FlatRow) (bool, error) {
+		if got == consumerFailsAt {
+			consumerFailed = true
+			return false, errConsumer
+		}
 		got++
 		return true, nil
 	})
 	if src.err != nil {
 		vrtAssert(err != nil, "a failed source makes Iterate return an error")
+	}
+	if consumerFailed {
+		vrtAssert(err != nil, "an error returned by the consumer's row callback makes Iterate return an error")
 	}
 	if err == nil {
 		vrtAssert(got == expected, "a nil error means every row of the source was delivered ("+zxItoa(expected)+")")
